@@ -2604,8 +2604,10 @@ def subset_glyphs(self, s):
     if prop.Format == 0:
         return prop.DefaultProperties != 0
     elif prop.Format == 1:
+        # (sorted: a tie between equally common properties must not be decided
+        # by the iteration order of the glyph set)
         prop.Properties = {
-            g: prop.Properties.get(g, prop.DefaultProperties) for g in s.glyphs
+            g: prop.Properties.get(g, prop.DefaultProperties) for g in sorted(s.glyphs)
         }
         mostCommon, _cnt = Counter(prop.Properties.values()).most_common(1)[0]
         prop.DefaultProperties = mostCommon
@@ -2684,8 +2686,10 @@ def subset_glyphs(self, s):
     # https://github.com/fonttools/fonttools/issues/2461
     s.glyphs = s.glyphs_colred
 
+    # (keep the records in their original order, which is by glyph ID, rather
+    # than in the iteration order of the glyph set)
     self.ColorLayers = {
-        g: self.ColorLayers[g] for g in s.glyphs if g in self.ColorLayers
+        g: layers for g, layers in self.ColorLayers.items() if g in s.glyphs
     }
     if self.version == 0:
         return bool(self.ColorLayers)
